@@ -30,14 +30,25 @@ ASSUMPTIONS = [
     'domain: link_with between streams of different packages, flow-linking multi-phase streams with different phase '
     'sets, and copy_like that would change the phase set of a multi-phase stream whose flow array is shared with '
     'another indexer are outside the property (both sides answer `skip`)',
-    'copy_flow is not generated; IDs of unnamed streams are not observed; units= is generated with molar units only in '
+    'copy_flow is not modelled (its conservation side is C01): `copyflowprobe` (oracle only, on private copies of the two '
+    'streams, single-phase target) checks that the selected flows (IDs / exclude) arrive, the others stay, remove empties '
+    'exactly the selection in the source, phase/T/P of the target stay, and nothing is shared afterwards; '
+    'IDs of unnamed streams are not observed; units= is generated with molar units only in '
     'the correspondence (exact arithmetic), mass units and total_flow are checked by the oracle with a tolerance '
     '(`ctorprobe`); from_streams is the last operation of a case and needs streams of one package (else `skip`)',
     'phase views ms[p] (`view i p`) are model objects: the dump shows, for every stream, the row object and thermal '
     'condition each handed-out view is bound to (compared with the model after every operation); the oracle also checks '
     'on the real objects that every such view is attached to its stream, except for a stream whose flows were re-bound '
     'because its proxy partner was flow-linked (hypothesis NoAliasRelink of the theorem views_follow_parent); views '
-    'are not operands of copy / copy_like / link themselves',
+    'are not operands of the MODELLED operations; `viewops` (oracle only, on private copies) uses a view as source of '
+    'pickle / proxy / flow_proxy / copy / copy_like / link_with and as target of copy_like from a stream of its phase',
+    'non-stream pickles (Reaction, ParallelReaction, SeriesReaction, ReactionSystem, Chemical, Thermo incl. non-default '
+    'Gamma/PCF, CompiledChemicals) are decided by the ORACLE (observable state before/after, also across sessions); the '
+    '`pslots` protocol line only echoes the fingerprints of the original object (no independent model), `pchems` '
+    'recomputes the name index from chemicals, names and groups',
+    '`stream.phase = p` on a multi-phase stream gives THAT object a new single-phase indexer; for a proxy this silently '
+    'ends the sharing with its original — mirrored as the code has it (model and advertised-sharing oracle), not '
+    'judged against the sentence \'a proxy shares all flow data\'',
     'Reaction / ParallelReaction / Thermo / Chemical pickles: the adapter sends the slots read from the real object '
     'as the pickle arguments, the model rebuilds slot-wise (unset stays unset; for Chemical every slot through '
     'getattr(..., None)), the answer is compared with the slots of the really unpickled object (values by a '
@@ -99,6 +110,10 @@ def setup():
     EXTRA['prxn'] = [rxn.ParallelReaction([rxn.Reaction('2Methanol -> Ethanol + Water', reactant='Methanol', X=0.5),
                                            rxn.Reaction('Ethanol -> Methanol', reactant='Ethanol', X=0.125,
                                                         check_atomic_balance=False, check_mass_balance=False)])]
+    r1 = rxn.Reaction('2Methanol -> Ethanol + Water', reactant='Methanol', X=0.5)
+    r2 = rxn.Reaction('Ethanol -> Methanol', reactant='Ethanol', X=0.125, check_atomic_balance=False, check_mass_balance=False)
+    EXTRA['srxn'] = [rxn.SeriesReaction([r1, r2])]
+    EXTRA['rsys'] = [rxn.ReactionSystem(r1, rxn.ParallelReaction([r1.copy(), r2.copy()]))]
     EXTRA['chem'] = [chems[n] for n in NAMES]
     EXTRA['thermo'] = [TH[k] for k in ('A', 'B', 'C', 'D')]
     # chemicals with user-set data, a locked state, a blank (user-defined) chemical; not cached, so that the
@@ -112,15 +127,22 @@ def setup():
     cc.define_group('Alcohols', ['Ethanol', 'Methanol'], composition=[0.25, 0.75])
     cc2 = tmo.Chemicals([tmo.Chemical('Methanol'), tmo.Chemical('Water')]); cc2.compile(); cc2.set_alias('Methanol', 'MeOH_x')
     EXTRA['cchems'] = [cc, cc2, TH['C'].chemicals]
-    EXTRA['thermo'] += [tmo.Thermo(cc), tmo.Thermo(cc2)]
-    tmo.settings.set_thermo(EXTRA['thermo'][-2])
+    thcc = tmo.Thermo(cc)
+    EXTRA['thermo'] += [thcc, tmo.Thermo(cc2)]
+    # non-default activity / fugacity / Poynting models
+    from thermosteam import equilibrium as eq_
+    EXTRA['thermo'] += [tmo.Thermo(TH['A'].chemicals, Gamma=eq_.IdealActivityCoefficients),
+                        tmo.Thermo(TH['B'].chemicals, Gamma=eq_.IdealActivityCoefficients, PCF=eq_.MockPoyintingCorrectionFactors)
+                        if hasattr(eq_, 'MockPoyintingCorrectionFactors') else
+                        tmo.Thermo(TH['B'].chemicals, Gamma=eq_.IdealActivityCoefficients)]
+    tmo.settings.set_thermo(thcc)
     EXTRA['rxn'].append(rxn.Reaction('Ethanol -> H2O_x', reactant='Ethanol', X=0.5, check_atomic_balance=False,
                                      check_mass_balance=False, correct_atomic_balance=False))
     tmo.settings.set_thermo(TH['A'])
 
 
 def budget(tier):
-    return {'quick': dict(seconds=70, cases=2600, shrink_s=15, search_s=5),
+    return {'quick': dict(seconds=70, cases=2800, shrink_s=15, search_s=5),
             'thorough': dict(seconds=400, cases=30000, shrink_s=40, search_s=20)}[tier]
 
 
@@ -795,6 +817,127 @@ def apply(W: World, line: str):
         S.append(m); E.new()
         for i in idx: E.t[i]['tc'] = E.t[idx[0]]['tc']
         E.t[-1]['tc'] = E.t[idx[0]]['tc']
+    elif op == 'viewops':
+        # phase views as OPERANDS of pickle / proxy / flow_proxy / copy / copy_like / link_with, on private copies
+        i, ph, j = int(t[1]), t[2], int(t[3])
+        if i >= len(S) or j >= len(S) or not is_multi(S[i]) or ph not in phases_of(S[i]): return None
+        ms = S[i].copy(); v = ms[ph]; src = S[j]
+        W.tags.append('viewops')
+        k = phases_of(ms).index(ph)
+        vrow = lambda: row_dict(ms, ms._imol.data.rows[k])
+        want = ((ph,), (tuple(sorted(vrow().items())),), ms.T, ms.P)
+
+        def attempt(name, f):
+            try:
+                return f()
+            except Exception as e:
+                raise OracleFail(f'viewops:{name}-raises-{type(e).__name__}', f'{name} with the phase view {i}[{ph!r}] raised {e!r}')
+        c = attempt('pickle', lambda: pickle.loads(pickle.dumps(v)))
+        if cond(c) != want or c.price != v.price: raise OracleFail('viewops:pickle-not-equal', f'unpickled view {cond(c)}, view {want}')
+        if shared_parts(c, ms, ('rows', 'tc')): raise OracleFail('viewops:pickle-shares', 'the unpickled view shares data with the stream')
+        c = attempt('proxy', lambda: v.proxy())
+        if c._imol.data.dct is not v._imol.data.dct or c._thermal_condition is not ms._thermal_condition:
+            raise OracleFail('viewops:proxy-not-shared', 'a proxy of a phase view does not share its flows / thermal condition')
+        c = attempt('flow_proxy', lambda: v.flow_proxy())
+        if c._imol.data.dct is not v._imol.data.dct: raise OracleFail('viewops:flowproxy-not-shared', 'flow proxy of a view does not share the flows')
+        if c._thermal_condition is ms._thermal_condition: raise OracleFail('viewops:flowproxy-extra-tc', 'flow proxy of a view shares T/P')
+        if cond(c) != want: raise OracleFail('viewops:flowproxy-not-equal', f'{cond(c)} vs {want}')
+        c = attempt('copy', lambda: v.copy())
+        if cond(c) != want: raise OracleFail('viewops:copy-not-equal', f'copy of a view {cond(c)}, view {want}')
+        if shared_parts(c, ms, ('rows', 'tc')) or c._imol.data.dct is v._imol.data.dct:
+            raise OracleFail('viewops:copy-shares', 'the copy of a view shares data with the stream')
+        probe_independent(c, [ms], 'viewops:copy-not-independent')
+        # target.copy_like(view)
+        tgt = src.copy()
+        missing = any(cc not in set(pkg_of(tgt)) for cc in vrow())
+        try:
+            tgt.copy_like(v)
+        except Exception as e:
+            if not (missing and errname(e) == 'UndefinedChemical'):
+                raise OracleFail(f'viewops:copylike-from-view-raises-{type(e).__name__}', f'copy_like(view) raised {e!r}')
+        else:
+            if missing: raise OracleFail('viewops:copylike-from-view-no-error', 'missing chemical, no error')
+            if (tgt.T, tgt.P) != (ms.T, ms.P): raise OracleFail('viewops:copylike-from-view-TP', 'T,P not copied from the view')
+            got = {p_: row_dict(tgt, r) for p_, r in zip(phases_of(tgt), rows_of(tgt))}
+            dest = ph if ph in got else swapcase_ok(ph)
+            if dest not in got or got[dest] != vrow() or any(d for p_, d in got.items() if p_ != dest):
+                raise OracleFail('viewops:copylike-from-view-flows', f'target {got} after copy_like(view {ph}: {vrow()})')
+            if not is_multi(tgt) and phases_of(tgt) != (ph,):
+                raise OracleFail('viewops:copylike-from-view-phase', f'target phase {phases_of(tgt)}, view {ph}')
+            if not is_multi(tgt):
+                try:
+                    tgt.phase = 'g' if ph != 'g' else 'l'      # the copy must not inherit the lock of the view's phase
+                except Exception as e:
+                    raise OracleFail('viewops:copylike-from-view-locked', f'after copy_like(view) the target cannot change phase: {e!r}')
+            if cond(ms)[:2] != (phases_of(S[i]), cond(S[i])[1]): raise OracleFail('viewops:copylike-from-view-source-changed', 'the stream of the view changed')
+        # view.copy_like(single-phase stream of the same phase): defined; anything else may raise (locked phase)
+        if not is_multi(src) and phases_of(src) == (ph,) and not any(cc not in set(pkg_of(ms)) for cc in row_dict(src, rows_of(src)[0])):
+            ms3 = S[i].copy(); v3 = ms3[ph]
+            others = [row_dict(ms3, r) for q, r in zip(phases_of(ms3), rows_of(ms3)) if q != ph]
+            attempt('copylike-onto-view', lambda: v3.copy_like(src))
+            if row_dict(ms3, ms3._imol.data.rows[k]) != row_dict(src, rows_of(src)[0]) or (ms3.T, ms3.P) != (src.T, src.P):
+                raise OracleFail('viewops:copylike-onto-view-not-equal', 'copy_like onto a view: the stream does not show the copied flows / T,P')
+            if [row_dict(ms3, r) for q, r in zip(phases_of(ms3), rows_of(ms3)) if q != ph] != others:
+                raise OracleFail('viewops:copylike-onto-view-other-phases', 'copy_like onto a view changed another phase')
+        # single-phase stream linked with a view
+        if not is_multi(src) and src.chemicals is ms.chemicals:
+            for fl_, tp_ in ((True, True), (True, False), (False, True)):
+                y = src.copy()
+                attempt('link', lambda: y.link_with(v, flow=fl_, phase=False, TP=tp_))
+                if (y._imol.data.dct is v._imol.data.dct) != fl_ or (y._thermal_condition is ms._thermal_condition) != tp_:
+                    raise OracleFail(f'viewops:link-{int(fl_)}{int(tp_)}', 'link_with(view) does not share exactly the selected parts')
+        if full(S[i]) != full(S[i]): pass
+        return None
+    elif op == 'copyflowprobe':
+        # copy_flow on private copies of the two streams: selected flows equal, nothing shared, remove / exclude honoured
+        ti, si, ids_tok, rm, ex = int(t[1]), int(t[2]), t[3], t[4] == '1', t[5] == '1'
+        if ti >= len(S) or si >= len(S): return None
+        tt, ss = S[ti].copy(), S[si].copy()
+        if is_multi(tt): return None       # MultiStream.copy_flow has another signature (phase, IDs): see C01
+        W.tags.append('copyflowprobe')
+        src_tot = {}
+        for r in rows_of(ss):
+            for cc, vv in row_dict(ss, r).items(): src_tot[cc] = src_tot.get(cc, 0.) + vv
+        before_t = row_dict(tt, rows_of(tt)[0])
+        tcond = (phases_of(tt), tt.T, tt.P)
+        all_src = pkg_of(ss)
+        if ids_tok == '-':
+            IDs, sel = ..., (set() if ex else set(all_src))
+        else:
+            named = [int(x) for x in ids_tok.split(',')]
+            IDs = tuple(ID_OF[cc] for cc in named) if len(named) > 1 else ID_OF[named[0]]
+            inpk = [cc for cc in named if cc in all_src]
+            sel = (set(all_src) - set(inpk)) if ex else set(named)
+            if not ex and len(inpk) != len(named): return None      # an ID the source package lacks: lookup error, not our subject
+        missing = any(src_tot.get(cc, 0.) and cc not in set(pkg_of(tt)) for cc in sel)
+        try:
+            tt.copy_flow(ss, IDs, remove=rm, exclude=ex)
+        except Exception as e:
+            if missing and errname(e) == 'UndefinedChemical': return None
+            raise OracleFail(f'copyflowprobe:raises-{type(e).__name__}', f'copy_flow(IDs={IDs}, remove={rm}, exclude={ex}) raised {e!r}')
+        if missing: raise OracleFail('copyflowprobe:no-error', 'a selected chemical with flow is not in the target package, no error')
+        after_t = row_dict(tt, rows_of(tt)[0])
+        whole = ids_tok == '-' and not ex
+        for cc in set(before_t) | set(after_t) | set(src_tot):
+            if cc in sel and (cc in set(pkg_of(tt))):
+                if after_t.get(cc, 0.) != src_tot.get(cc, 0.):
+                    raise OracleFail('copyflowprobe:selected', f'chemical {cc}: target {after_t.get(cc, 0.)}, source {src_tot.get(cc, 0.)}')
+            elif not whole and after_t.get(cc, 0.) != before_t.get(cc, 0.):
+                raise OracleFail('copyflowprobe:unselected', f'chemical {cc} not selected but changed {before_t.get(cc, 0.)} -> {after_t.get(cc, 0.)}')
+            elif whole and cc not in sel and after_t.get(cc, 0.):
+                raise OracleFail('copyflowprobe:stale', f'chemical {cc} kept {after_t.get(cc)} after copying all flows')
+        if (phases_of(tt), tt.T, tt.P) != tcond: raise OracleFail('copyflowprobe:conditions', 'copy_flow changed phase, T or P of the target')
+        left = {}
+        for r in rows_of(ss):
+            for cc, vv in row_dict(ss, r).items(): left[cc] = left.get(cc, 0.) + vv
+        for cc in set(src_tot) | set(left):
+            wantv = 0. if (rm and cc in sel) else src_tot.get(cc, 0.)
+            if left.get(cc, 0.) != wantv:
+                raise OracleFail('copyflowprobe:source' + ('-remove' if rm else ''), f'source chemical {cc}: {left.get(cc, 0.)}, expected {wantv}')
+        if shared_parts(tt, ss, ('rows', 'array', 'tc', 'phase')):
+            raise OracleFail('copyflowprobe:shares', 'after copy_flow target and source share data')
+        probe_independent(tt, [ss], 'copyflowprobe:not-independent')
+        return None
     elif op == 'ctorprobe':
         # oracle-only: mass units and total_flow in the constructors (inexact arithmetic: tolerance), object discarded
         kind, pkgn, unit, tot = t[1], t[2], t[3], fl(t[4])
@@ -827,9 +970,9 @@ def apply(W: World, line: str):
             c = pickle.loads(pickle.dumps(obj))
         except Exception as e:
             raise OracleFail(f'pickleobj/{kind}:raises-{type(e).__name__}', f'pickling round trip raised {e!r}')
-        if kind in ('rxn', 'prxn', 'thermo', 'chem'):
+        if kind in ('rxn', 'prxn', 'srxn', 'rsys', 'thermo', 'chem'):
             W.tags.append('pickleobj:default-swapped')
-            own = TH['C'] if kind in ('rxn', 'prxn') else TH['A']
+            own = TH['C'] if kind in ('rxn', 'prxn', 'srxn', 'rsys') else TH['A']
             for at_dump, at_load, why in across_sessions(own)[:1]:
                 try:
                     c2 = with_defaults(at_dump, at_load, obj)
@@ -867,6 +1010,7 @@ def fingerprint(v):
     import numpy as np
     if v is _UNSET: return '<unset>'
     if v is None or isinstance(v, (bool, int, float, str)): return repr(v)
+    if isinstance(v, type): return 'class ' + v.__module__ + '.' + v.__qualname__
     if isinstance(v, np.ndarray): return 'array' + repr(v.tolist())
     if isinstance(v, (tuple, list)): return type(v).__name__ + '(' + ','.join(fingerprint(x) for x in v) + ')'
     if isinstance(v, (set, frozenset)): return 'set(' + ','.join(sorted(fingerprint(x) for x in v)) + ')'
@@ -945,7 +1089,10 @@ def obj_state(kind, o):
         return {'stoichiometry': tuple(sorted((o.chemicals.CASs[i], v) for i, v in o._stoichiometry.dct.items())) if hasattr(o._stoichiometry, 'dct')
                 else tuple(o._stoichiometry), 'reactant': o.reactant, 'X': o.X, 'basis': o.basis, 'phases': getattr(o, 'phases', None),
                 'chemicals': tuple(o.chemicals.CASs), 'repr': repr(o)}
-    if kind == 'prxn':
+    if kind == 'rsys':
+        return {'n': len(o._reactions), 'members': tuple(obj_state('prxn' if hasattr(r, 'reactants') else 'rxn', r)['repr']
+                                                         for r in o._reactions), 'repr': repr(o)}
+    if kind in ('prxn', 'srxn'):
         return {'X': tuple(o.X), 'reactants': tuple(o.reactants), 'basis': o.basis, 'chemicals': tuple(o.chemicals.CASs),
                 'repr': repr(o), 'stoichiometry': tuple(map(tuple, o.stoichiometry.tolist() if hasattr(o.stoichiometry, 'tolist') else o.stoichiometry))}
     if kind == 'chem':
@@ -1009,8 +1156,8 @@ def run_ops(ops):
     return W, model_in, outs, failures
 
 
-ORACLE_ONLY = ('pickleobj', 'ctorprobe')
-INTERESTING = ('fromstreams', 'ctorprobe', 'copy', 'copyto', 'copylike', 'copytc', 'link', 'unlink', 'proxy', 'flowproxy', 'pickle', 'pickleobj')
+ORACLE_ONLY = ('pickleobj', 'ctorprobe', 'viewops', 'copyflowprobe')
+INTERESTING = ('fromstreams', 'ctorprobe', 'viewops', 'copyflowprobe', 'copy', 'copyto', 'copylike', 'copytc', 'link', 'unlink', 'proxy', 'flowproxy', 'pickle', 'pickleobj')
 
 
 def run_impl(case: Case) -> ImplResult:
@@ -1204,6 +1351,14 @@ def gen_history(rng, length):
             s = rng.randrange(n); do(f'flowproxy {s}', pkgs[s])
         elif r < 0.98 and n < 7:
             s = rng.randrange(n); do(f'pickle {s}', pkgs[s])
+        elif rng.random() < 0.35:
+            multi = [j for j, x in enumerate(S) if is_multi(x)]
+            if multi and rng.random() < 0.6:
+                j = rng.choice(multi); do(f'viewops {j} {rng.choice(phases_of(S[j]))} {rng.randrange(n)}')
+            else:
+                a, b = rng.randrange(n), rng.randrange(n)
+                ids = rng.choice(['-', '-', '1', '3', '1,3', '2', '1,2,3'])
+                do(f'copyflowprobe {a} {b} {ids} {rng.randrange(2)} {rng.randrange(2)}')
         elif rng.random() < 0.7:
             multi = [j for j, x in enumerate(S) if is_multi(x)]
             if multi:
@@ -1211,7 +1366,7 @@ def gen_history(rng, length):
             else:
                 do(gen_mutation(rng, n, pkgs, W))
         else:
-            do(f'pickleobj {rng.choice(["rxn", "prxn", "chem", "thermo", "cchems"])} {rng.randrange(8)}')
+            do(f'pickleobj {rng.choice(["rxn", "prxn", "srxn", "rsys", "chem", "thermo", "cchems"])} {rng.randrange(10)}')
     if alive[0] and rng.random() < 0.08:
         singles = [j for j, x in enumerate(W.streams) if not is_multi(x)]
         if singles:
@@ -1252,9 +1407,22 @@ def grid_cases(rng):
                 ops.append(f'unlink {rng.randrange(2)}')
                 ops.append(gen_mutation(rng, 2, [pkg, pkg]))
                 out.append(Case(ops, {'tags': ['grid:' + op]}))
-    for kind in ('rxn', 'prxn', 'chem', 'thermo', 'cchems'):
-        for n in range(8):
+    for kind in ('rxn', 'prxn', 'srxn', 'rsys', 'chem', 'thermo', 'cchems'):
+        for n in range(10):
             out.append(Case([f'pickleobj {kind} {n}'], {'tags': ['grid:pickleobj']}))
+    # phase views as operands; copy_flow (private copies, oracle only)
+    for mp in ('g,l', 'l,s', 'L,g', 'g,l,s'):
+        for skind, sph in (('S', 'l'), ('S', 'g'), ('S', 's'), ('M', 'g,l')):
+            for spkg in ('A', 'D', 'B'):
+                a = gen_new(rng, 'M', 'A', mp, 1); b = restrict_common(gen_new(rng, skind, spkg, sph, 2), rng)
+                ops = [a, b] + [f'viewops 0 {q} 1' for q in mp.split(',')]
+                out.append(Case(ops, {'tags': ['grid:viewops']}))
+    for tk, tp in (('S', 'l'), ('S', 'g')):
+        for sk, sp in (('S', 'l'), ('M', 'g,l'), ('M', 'l')):
+            for tpkg, spkg in (('A', 'A'), ('A', 'D'), ('C', 'B'), ('B', 'A')):
+                a = gen_new(rng, tk, tpkg, tp, 1); b = gen_new(rng, sk, spkg, sp, 2)
+                ops = [a, b] + [f'copyflowprobe 0 1 {ids} {rm} {ex}' for ids in ('-', '1', '1,3', '2') for rm in '01' for ex in '01']
+                out.append(Case(ops, {'tags': ['grid:copyflow']}))
     # constructors with units= / total_flow=; from_streams
     for kind in 'SM':
         for pkg in 'ABCD':
